@@ -221,12 +221,13 @@ int main(int argc, char** argv)
 				xs.push_back(mu + s * g.uni(-9, 9));
 			T.emit(grid_event("normal", "1e-12", 1e-12, [=](double x) { return PDF_Gauss(x, mu, s); }, [=](double x) { return CDF_Gauss(x, mu, s); }, xs, mu - 40 * s, mu + 40 * s, true));
 			// quantile
-			double p = g.coin(0.3) ? g.logu(1e-10, 0.5) : g.uni(0.001, 0.999);
+			double p = g.coin(0.5) ? g.logu(1e-14, 0.5) : g.uni(0.001, 0.999);
 			if(g.coin())
 				p = 1.0 - p;
 			intent("Quantile_Gauss");
 			double q = Quantile_Gauss(p, mu, s);
-			T.emit({{"e", "Quantile"}, {"ok", CDF_Gauss(q - 1.5e-4 * s, mu, s) <= p && p <= CDF_Gauss(q + 1.5e-4 * s, mu, s)}});
+			// CDF_Gauss = (1 + erf)/2 is itself rounded at about 1e-16 absolute (coarse relative to p in the far lower tail)
+			T.emit({{"e", "Quantile"}, {"ok", CDF_Gauss(q - 1.5e-4 * s, mu, s) - 4 * EPS <= p && p <= CDF_Gauss(q + 1.5e-4 * s, mu, s) + 4 * EPS}});
 		}
 		else if(fam == 2)
 		{
